@@ -496,7 +496,8 @@ def gen_fail(rng):
     """Device-side sync failures at every point: FAIL for RECV, FAIL status for SEND (at the end or overtaking an OKAY), invalid records."""
     files = {0: rand_bytes(rng, rng.choice([0, 100, 6000, 9000, 20000]))}
     msg = rng.choice([b"", b"nope", b"Permission denied", b"\xff\xfe bad utf8 \xe2\x82", b"x" * 1024])
-    sim = dict(maxdata=rng.choice([4096, 8192]), burst=rng.random() < 0.3, wrte_split=rng.choice([None, [3], [9], [1]]), remote_ids=rand_remote_ids(rng))
+    sim = dict(maxdata=rng.choice([4096, 8192]), burst=rng.random() < 0.5, wrte_split=rng.choice([None, [3], [9], [1], [8, 100]]), remote_ids=rand_remote_ids(rng),
+               okay_after_reply=rng.random() < 0.4)
     ops = [connect_op(rng)]
     kind = rng.choice(["pull_fail", "push_fail_status", "push_fail_early", "pull_invalid", "push_invalid", "stat_invalid", "list_invalid", "pull_fail_after_data"])
     if kind == "pull_fail":
